@@ -221,7 +221,7 @@ def build_traces(path, tier, seed):
             k, n = 2, int(rng.integers(4300, 4600))
             master = int(rng.integers(0, 2))
             base = np.concatenate([np.zeros(n + 2 * steps - 170), np.cumsum(rng.standard_normal(170))])
-        if longrec and (i == nclu - 1 or rng.integers(3) == 0):
+        if longrec and (i == nclu - 1 or (i < nclu - 2 and rng.integers(3) == 0)):        # (the one before the last always has the quiet lead)
             # ... or a record of more than 8192 samples dominated by a drift (a slow trend plus a weak ripple): only the direct
             # comparison of the overlapping samples finds the lag
             n = int(rng.integers(8300, 9500))
